@@ -33,6 +33,11 @@ class An:
 
 
 def of(F, inst):
+    # the iterator-counter invariants (invariants.py) are facts of every analysis: have them computed before the first bundle
+    # is memoised (computing them empties this cache, which would leave earlier bundles - and hooks registered on them - stale)
+    from . import invariants as INV
+    if id(F) not in INV._cache:
+        INV.counter_invariants(F)
     k = (id(F), inst.get("key") or inst.get("path"))
     if k not in _cache:
         _cache[k] = An(F, inst)
